@@ -115,6 +115,27 @@ def run(ctx):
                         if abs(abs(complex(lo).real) - abs(l1)) > 1e-8 * abs(l1): viol(f'C19:nonhermitian:modulus:{tag}', 'complex-adjoint variant: |eigenvalue| is not |lambda_max|', inp, lo, l1)
                     except Exception as ex: viol(f'C19:nonhermitian:raises:{tag}', f'power_iteration_nonhermitian raised {ex!r}', inp)
                     ctx.count(('converge', n, sname, scn, seed), True)
+    # ---- "from every random start": the dominant eigenvector orthogonal to the all-ones vector (and to the coordinate vectors e_1, e_n) -- a fixed
+    # start vector would never acquire a component along it.  A = l2 I + (l1 - l2) v v^H with v = (i, -i, j, -j)/2 embedded in dimension n
+    for n in (4, 5, 6) if ctx.quick() else (4, 5, 6, 7, 8):
+        vq = qx.zeros(n, 1); half = Fraction(1, 2)
+        vq[1][0] = Q(0, half, 0, 0); vq[2][0] = Q(0, -half, 0, 0); vq[n - 3 if n > 4 else 0][0] = Q(0, 0, half, 0)
+        vq[n - 2 if n > 4 else 3][0] = Q(0, 0, -half, 0)
+        if n == 4: vq = [[Q(0, half, 0, 0)], [Q(0, -half, 0, 0)], [Q(0, 0, half, 0)], [Q(0, 0, -half, 0)]]
+        if n > 4: vq[0][0] = Q(); vq[n - 1][0] = Q()
+        nv = sum(a[0].n2() for a in vq)
+        if nv != 1: continue
+        P = qx.mm(vq, qx.herm(vq))
+        for l1, l2 in ((Fraction(5), Fraction(4)), (Fraction(-5), Fraction(4)), (Fraction(5), Fraction(-4)), (Fraction(3), Fraction(1))):
+            A = qx.add(qx.scale(Q(l2), qx.eye(n)), qx.scale(Q(l1 - l2), P)); An = qx.to_np(A)
+            for seed in (0, 1, 2):
+                inp = {'n': n, 'class': 'dominant eigenvector orthogonal to (1, ..., 1), e_1 and e_n', 'lambda_max': str(l1), 'other eigenvalue': str(l2), 'seed': seed}
+                try: v, e, k, x0 = call_pi(An, seed, 5000, 1e-10)
+                except Exception as ex: viol('C19:raises:orthogonal-start-class', f'power_iteration raised {ex!r}', inp); continue
+                if abs(e - float(abs(l1))) > 1e-7 * float(abs(l1)): viol('C19:converge:estimate:orthogonal-to-ones', f'estimate {e!r} is not |lambda_max| = {float(abs(l1))!r} although the dominant eigenvalue is separated (ratio {float(abs(l2) / abs(l1)):.2f})', inp, e, float(abs(l1)))
+                ip = sum((np.conjugate(qx.to_np(vq))[i, 0] * np.asarray(v).reshape(n)[i] for i in range(n)), quaternion.quaternion(0, 0, 0, 0))
+                if abs(ip) < 1 - 1e-5: viol('C19:converge:eigenvector:orthogonal-to-ones', f'the returned vector has modulus-overlap {abs(ip):.3g} with the dominant eigenvector (expected 1)', inp, abs(ip))
+                ctx.count(('orthogonal-start', n, str(l1), str(l2), seed), True)
     # ---- the complex-adjoint variant on non-Hermitian input: unit vector; model correspondence on small budgets
     for n in range(1, (4 if ctx.quick() else 6)):
         for cls in ('generic', 'integer', 'upper-triangular', 'complex-subfield'):
